@@ -321,6 +321,27 @@ theorem writers_result [DecidableEq κ] (st : Slots κ ν) (ws ws' : List (κ ×
   rw [writers_order_independent st ws ws' hd hp]
   exact runWrites_lookup ws st hd k
 
+/-- `return_early=True`: `TensorDictFuture.result()` waits for the futures it was handed. The executor
+    may run *only* the awaited tasks: a slot whose writer task is not among them is still untouched
+    when the wait returns (what happens to the leaves of a nested tensorclass if its tasks are not
+    added to `futures`; the check forces that schedule with the permuting executor). -/
+theorem unawaited_slot_untouched [DecidableEq κ] (st : Slots κ ν) (awaited : List (κ × ν)) (k : κ)
+    (h : ∀ w ∈ awaited, w.1 ≠ k) : runWrites st awaited k = st k := by
+  induction awaited generalizing st with
+  | nil => rfl
+  | cons w ws ih =>
+    have h1 : w.1 ≠ k := h w List.mem_cons_self
+    have : runWrites st (w :: ws) = runWrites (st.write w.1 w.2) ws := rfl
+    rw [this, ih _ (fun x hx => h x (List.mem_cons_of_mem _ hx))]
+    simp [Slots.write, Ne.symm h1]
+
+/-- … whereas when the awaited futures are **all** the submitted tasks (in any order) the state after
+    the wait is the state of the complete, single-threaded, run -/
+theorem await_all_is_complete [DecidableEq κ] (st : Slots κ ν) (submitted awaited : List (κ × ν))
+    (hd : submitted.Pairwise fun a b => a.1 ≠ b.1) (hp : submitted.Perm awaited) :
+    runWrites st awaited = runWrites st submitted :=
+  writers_order_independent st submitted awaited hd hp
+
 /-- without the distinct-slot hypothesis the order matters (two tasks on one slot) -/
 theorem writers_same_slot_counterexample :
     runWrites (fun _ => none) [(0, 1), (0, 2)] 0 ≠ runWrites (fun _ => none) [(0, 2), (0, 1)] (0 : Nat) := by
